@@ -557,6 +557,10 @@ func (u *Unit) builtin(fr *Frame, st *State, name string, c *ssa.CallCommon, arg
 		st.heap[dom] = u.ctx.Define(dom, Store(d, m, Store(Select(d, m), k, False)))
 		return nil
 	case "close":
+		// `at chan.close label: e`: proved right before every close() of the unit (arg0 is
+		// the channel) - closing is what releases the readers, so what they may read has
+		// to be in place by then
+		u.atPseudo(fr, st, "chan.close", "at the close of the channel: ", pos, []envVar{{args[0], c.Args[0].Type()}})
 		// built-in ghost `closeCalls` (when a spec declares it): how many channels the unit
 		// has closed so far - a send must come before the close of its channel
 		if g, ok := u.prog.specs.GhostVars["closeCalls"]; ok {
@@ -684,7 +688,11 @@ func (u *Unit) forEachElemMap(elemT types.Type, r *Term, f func(name string, sor
 		for i := 0; i < s.NumFields(); i++ {
 			fl := s.Field(i)
 			if _, nested := u.structOf(fl.Type()); nested {
-				unsupp("slice of structs with nested struct values (%s.%s)", elemT, fl.Name())
+				// the nested value is not carried over: the fields of the new elements that
+				// hold struct values stay unconstrained (an over-approximation - nothing
+				// can be proved about them, nothing false is assumed)
+				u.note(fmt.Sprintf("slice of %s: the nested struct value %s of its elements is not modelled (left unconstrained)", elemT, fl.Name()))
+				continue
 			}
 			sort, _ := u.sortOf(fl.Type())
 			f(fieldMapName(elemT, fl.Name()), sort)
